@@ -101,6 +101,16 @@ func (l *Lexer) Position() token.Position {
 	}
 }
 
+// errorToken is the token returned together with a lexing error: it has no
+// type or literal, but carries the position of the text that could not be
+// lexed, so that the error is reported where it occurred.
+func (l *Lexer) errorToken() token.Token {
+	return token.Token{
+		StartPosition: l.tokenStartPosition,
+		EndPosition:   l.Position(),
+	}
+}
+
 // Next returns the next Token from the input that is being lexed.
 func (l *Lexer) Next() (token.Token, error) {
 	var tok token.Token
@@ -241,7 +251,7 @@ func (l *Lexer) Next() (token.Token, error) {
 			tok = l.newToken(token.GT, string(l.ch))
 		}
 	case rune('~'):
-		return token.Token{}, fmt.Errorf("unexpected character: %q", l.ch)
+		return l.errorToken(), fmt.Errorf("unexpected character: %q", l.ch)
 	case rune('!'):
 		if l.peekChar() == rune('=') {
 			ch := l.ch
@@ -309,7 +319,7 @@ func (l *Lexer) Next() (token.Token, error) {
 		if isDigit(l.ch) {
 			tok, err = l.readDecimal()
 			if err != nil {
-				return token.Token{}, err
+				return l.errorToken(), err
 			}
 			l.readChar()
 			l.prevToken = tok
@@ -317,7 +327,7 @@ func (l *Lexer) Next() (token.Token, error) {
 		}
 		ident, err := l.readIdentifier()
 		if err != nil {
-			return token.Token{}, err
+			return l.errorToken(), err
 		}
 		if ident == "as" && l.prevToken.Type == token.PERIOD {
 			tok = l.newToken(token.IDENT, ident)
